@@ -1128,13 +1128,25 @@ class MarkovChainMonteCarloMethod:
                         **common_kwargs,
                     )
                     if len(adapter_states) > 0:
-                        _finalize_adapters(
-                            adapter_states,
-                            chain_states,
-                            stage.adapters,
-                            self.transitions,
-                            per_chain_rngs,
-                        )
+                        try:
+                            # If sampling was interrupted only a subset of chains may
+                            # have been sampled so use only corresponding generators
+                            _finalize_adapters(
+                                adapter_states,
+                                chain_states,
+                                stage.adapters,
+                                self.transitions,
+                                per_chain_rngs[: len(chain_states)],
+                            )
+                        except AdaptationError:
+                            # Too few adaptation updates may have been performed before
+                            # an interrupt for adapters to be finalized: in this case
+                            # still return the partial outputs
+                            if not isinstance(exception, KeyboardInterrupt):
+                                raise
+                            logger.exception(
+                                "Adapters could not be finalized after interruption."
+                            )
                     if stage.trace_funcs is not None or stage.record_stats:
                         sampling_index_offset += stage.n_iter
                     if isinstance(exception, KeyboardInterrupt):
